@@ -244,10 +244,6 @@ func init() {
 		if (e1 == 0 && (e2 != 0 || e3 != 0)) || (e2 == 0 && e3 != 0) || (e3 == 0 && e4 != 0) {
 			return false
 		}
-		// the fourth further entry is crossed with a reduced alphabet of the others
-		if e4 != 0 && (e1 > 3 || e2 > 3 || e3 > 3) {
-			return false
-		}
 		n := 0
 		if v[s.idx("first")] != 0 {
 			n++
@@ -272,6 +268,10 @@ func init() {
 			return false
 		}
 		return true
+	}
+	s.Reduce = func(v []int) bool {
+		// the fourth further entry is crossed with a reduced alphabet of the others
+		return v[s.idx("e4")] != 0 && (v[s.idx("e1")] > 3 || v[s.idx("e2")] > 3 || v[s.idx("e3")] > 3)
 	}
 	addCheck(&Check{ID: "C13", Level: "exploration",
 		Rule:   "complete product: first Route entry (16 shapes incl. a port written with a leading zero: own by address/alias/with and without port, near misses, other listeners, decorated own entries, an unresolvable host with the listener's port) x remaining list of 0-3 (thorough 0-4) entries over an 8-entry alphabet (display names, URI parameters valued/valueless/lr in any position, header parameters, %-escapes) x every layout (all compositions into header lines, with/without blank after commas) x keep-next-hop x arrival {UDP, TCP, UDP on a listens entry without address}; the emitted Route list is decoded by the independent reader and compared component-wise with the reference; second pass: all cases of one (keep, first entry) class fed into ONE long-lived world; non-trivial = request carries a Route",
